@@ -182,7 +182,18 @@ def sway_expr(t, v, pre=None, fresh=None):
         pre.append("let mut %s: %s = Vec::new();" % (x, sway_type(t)))
         for it in items: pre.append("%s.push(%s);" % (x, it))
         return x
-    if k == "array": return "[%s]" % ", ".join(rec(t[1], x) for x in v)
+    if k == "array":
+        items = [rec(t[1], x) for x in v]
+        if pre is not None and fresh is not None and t[1][0] in ("result", "option", "tuple", "array"):
+            # `[Ok(a), Ok(b)]` / `[None, None]` leave a type parameter of the element type undetermined and the
+            # compiler rejects the literal even under a type ascription: bind every element to a typed local
+            named = []
+            for it in items:
+                x = fresh()
+                pre.append("let %s: %s = %s;" % (x, sway_type(t[1]), it))
+                named.append(x)
+            items = named
+        return "[%s]" % ", ".join(items)
     if k == "tuple":
         return "(%s%s)" % (", ".join(rec(f, x) for f, x in zip(t[1], v)), "," if len(v) == 1 else "")
     if k == "struct":
